@@ -631,13 +631,13 @@ theorem spec_step_singleton {p : Pool} {a : SAcc} (hi : PInv p) (hr : SRel a p) 
 
 theorem spec_singleton_go (ops : List SOp) :
     ∀ (p : Pool) (a : SAcc) (idx : Nat), PInv p → SRel a p →
-      specSGo a idx (singleton.trace () p ops) = .ok := by
+      specSGo a idx (singletonCore.trace () p ops) = .ok := by
   induction ops with
   | nil => intros; rfl
   | cons op ops ih =>
     intro p a idx hi hr
     obtain ⟨h1, h2⟩ := spec_step_singleton hi hr idx op
-    simp only [TComp.trace, singleton, sstep, specSGo]
+    simp only [TComp.trace, singletonCore, sstep, specSGo]
     rw [h1]
     exact ih _ _ _ (step_ok hi op).inv h2
 
@@ -773,146 +773,13 @@ theorem spec_step_refcount {s : RC} {a : RAcc} (hi : RInv s) (hr : RRel a s) (y 
 
 theorem spec_refcount_go (y : Bool) (ops : List ROp) :
     ∀ (s : RC) (a : RAcc) (idx : Nat), RInv s → RRel a s →
-      specRGo a idx (refcount.trace y s ops) = .ok := by
+      specRGo a idx (refcountCore.trace y s ops) = .ok := by
   induction ops with
   | nil => intros; rfl
   | cons op ops ih =>
     intro s a idx hi hr
     obtain ⟨h1, h2⟩ := spec_step_refcount hi hr y idx op
-    simp only [TComp.trace, refcount, specRGo]
-    rw [h1]
-    exact ih _ _ _ (hi.step op) h2
-
-/-! ### SharedSinkProvider -/
-
-theorem lookup_append_of_some {c : List (Nat × Nat)} {k s : Nat} (d : List (Nat × Nat))
-    (h : lookup c k = some s) : lookup (c ++ d) k = some s := by
-  induction c with
-  | nil => simp [lookup] at h
-  | cons e c ih =>
-    obtain ⟨k', s'⟩ := e
-    simp only [List.cons_append, lookup] at h ⊢
-    split
-    · rename_i hk; simpa [hk] using h
-    · rename_i hk; simp only [hk, if_false] at h; exact ih h
-
-theorem lookup_append_of_none {c : List (Nat × Nat)} {k : Nat} (s : Nat)
-    (h : lookup c k = none) : lookup (c ++ [(k, s)]) k = some s := by
-  induction c with
-  | nil => simp [lookup]
-  | cons e c ih =>
-    obtain ⟨k', s'⟩ := e
-    simp only [List.cons_append, lookup] at h ⊢
-    split
-    · rename_i hk; simp [hk] at h
-    · rename_i hk; simp only [hk, if_false] at h; exact ih h
-
-theorem lookup_filter {c : List (Nat × Nat)} {k s : Nat} (P : Nat × Nat → Bool)
-    (h : lookup c k = some s) (hP : P (k, s) = true) : lookup (c.filter P) k = some s := by
-  induction c with
-  | nil => simp [lookup] at h
-  | cons e c ih =>
-    obtain ⟨k', s'⟩ := e
-    simp only [lookup] at h
-    by_cases hk : k' = k
-    · simp only [hk, if_true] at h
-      cases h
-      subst hk
-      simp [hP, lookup]
-    · simp only [hk, if_false] at h
-      rw [List.filter_cons]
-      split
-      · simp only [lookup, hk, if_false]; exact ih h
-      · exact ih h
-
-theorem alive_of_mem {held : List Hold} {x : Hold} (h : x ∈ held) : alive held x.2.2 = true := by
-  unfold alive
-  rw [List.any_eq_true]
-  exact ⟨x, h, by simp⟩
-
-/-- every key under which somebody holds a shared sink still maps to that sink -/
-def PInvP (p : Prov) : Prop := ∀ x ∈ p.held, x.2.1 ≠ 0 → lookup p.cache x.2.1 = some x.2.2
-
-theorem PInvP.init : PInvP {} := by intro x hx; simp at hx
-
-theorem PInvP.step {p : Prov} (hi : PInvP p) (op : POp) : PInvP (p.step op).1 := by
-  cases op with
-  | drop h =>
-    intro x hx hk
-    simp only [Prov.step] at hx ⊢
-    have hx0 : x ∈ p.held := (List.mem_filter.1 hx).1
-    exact lookup_filter _ (hi x hx0 hk) (alive_of_mem hx)
-  | create h key =>
-    intro x hx hk
-    simp only [Prov.step] at hx ⊢
-    by_cases hkey : key = 0
-    · simp only [hkey, if_true] at hx ⊢
-      simp only [List.mem_append, List.mem_singleton] at hx
-      rcases hx with hx | hx
-      · have hx0 : x ∈ p.held := (List.mem_filter.1 hx).1
-        exact lookup_filter _ (hi x hx0 hk) (alive_of_mem (by simp [hx]))
-      · subst hx; simp at hk
-    · simp only [hkey, if_false] at hx ⊢
-      cases hl : lookup p.cache key with
-      | some s =>
-        simp only [hl] at hx ⊢
-        simp only [List.mem_append, List.mem_singleton] at hx
-        rcases hx with hx | hx
-        · have hx0 : x ∈ p.held := (List.mem_filter.1 hx).1
-          exact lookup_filter _ (hi x hx0 hk) (alive_of_mem (by simp [hx]))
-        · subst hx
-          exact lookup_filter _ hl (alive_of_mem (x := (h, key, s)) (by simp))
-      | none =>
-        simp only [hl] at hx ⊢
-        simp only [List.mem_append, List.mem_singleton] at hx
-        rcases hx with hx | hx
-        · have hx0 : x ∈ p.held := (List.mem_filter.1 hx).1
-          exact lookup_filter _ (lookup_append_of_some _ (hi x hx0 hk)) (alive_of_mem (by simp [hx]))
-        · subst hx
-          exact lookup_filter _ (lookup_append_of_none _ hl)
-            (alive_of_mem (x := (h, key, p.created + 1)) (by simp))
-
-theorem Prov.run_inv (ops : List POp) : ∀ {p : Prov}, PInvP p → PInvP (p.run ops) := by
-  induction ops with
-  | nil => intro p h; exact h
-  | cons op ops ih => intro p h; exact ih (h.step op)
-
-/-- asking with a key under which somebody holds a sink yields that sink -/
-theorem create_same {p : Prov} (hi : PInvP p) {x : Hold} (hx : x ∈ p.held) (hk : x.2.1 ≠ 0) (h2 : Nat) :
-    (p.step (.create h2 x.2.1)).2 = x.2.2 := by
-  simp only [Prov.step, hk, if_false, hi x hx hk]
-
-theorem spec_step_sharedprov {p : Prov} {a : PAcc} (hi : PInvP p) (hr : a.holds = p.held) (idx : Nat) (op : POp) :
-    specPObs a idx op (pstep () p op).2 = .ok ∧ (a.after op (pstep () p op).2).holds = (p.step op).1.held := by
-  cases op with
-  | drop h => exact ⟨rfl, by simp [PAcc.after, Prov.step, hr]⟩
-  | create h key =>
-    constructor
-    · simp only [specPObs]
-      split
-      · rfl
-      · rename_i hkey
-        have : a.holds.find? (fun x => x.2.1 == key && x.2.2 != (pstep () p (.create h key)).2.sink) = none := by
-          rw [List.find?_eq_none]
-          intro x hx
-          rw [hr] at hx
-          simp only [Bool.and_eq_true, beq_iff_eq, bne_iff_ne, ne_eq, not_and, Decidable.not_not]
-          intro hxk
-          subst hxk
-          exact (create_same hi hx hkey h).symm
-        rw [this]
-    · simp only [PAcc.after, pstep, hr]
-      simp only [Prov.step]
-
-theorem spec_sharedprov_go (ops : List POp) :
-    ∀ (p : Prov) (a : PAcc) (idx : Nat), PInvP p → a.holds = p.held →
-      specPGo a idx (sharedprov.trace () p ops) = .ok := by
-  induction ops with
-  | nil => intros; rfl
-  | cons op ops ih =>
-    intro p a idx hi hr
-    obtain ⟨h1, h2⟩ := spec_step_sharedprov hi hr idx op
-    simp only [TComp.trace, sharedprov, specPGo]
+    simp only [TComp.trace, refcountCore, specRGo]
     rw [h1]
     exact ih _ _ _ (hi.step op) h2
 
